@@ -436,6 +436,12 @@ impl<T: Copy> Buffer<T> {
     ///
     /// Will only be called from the read buffer.
     pub(in crate::circular_buffer) fn consume(&self, n: usize) {
+        if n == 0 {
+            // Nothing consumed, so no tags to discard either. Without this,
+            // the tag cleanup below would see newpos == rpos, treat it as a
+            // full wrap, and discard every tag in the buffer.
+            return;
+        }
         let (lock, cv) = &*self.state;
         let mut s = lock.lock().unwrap();
         assert!(
